@@ -94,7 +94,7 @@ func hx(b []byte) string { return vh.Hex(b) }
 // ---------------------------------------------------------------- R 2,3,4 function level (K + O)
 
 func partRC4(r *vh.Run) {
-	n := r.Pick(100, 2500)
+	n := r.Pick(48, 1200)
 	for i := 0; i < n; i++ {
 		rev := 2 + r.Rand.Intn(3)
 		length := 40 + 8*r.Rand.Intn(12)
@@ -172,6 +172,9 @@ func partRC4(r *vh.Run) {
 		if len(upw) > 32 {
 			cands = append(cands, upw[:32])
 		}
+		if !r.Thorough() { // quick tier: the right user password, the owner password and one variation
+			cands = [][]byte{upw, opw, cands[2+r.Rand.Intn(len(cands)-2)]}
+		}
 		for ci, c := range cands {
 			e := *ctx.E
 			switch r.Rand.Intn(5) {
@@ -196,7 +199,9 @@ func partRC4(r *vh.Run) {
 			}
 			args := []string{hx(c), hx(e.O), hx(e.U), P, hx(id), R, L, EM}
 			r.Case("vuser", args, res)
-			r.Case("s_alg6", args, res)
+			if r.Thorough() || ci != 1 {
+				r.Case("s_alg6", args, res)
+			}
 			wok, wkey := iAlg6(c, e.O, e.U, p, id, rev, length, emd)
 			if err != nil || ok != wok || !bytes.Equal(c2.EncKey, wkey) {
 				r.OracleFail("iso-mismatch:validateUserPassword", map[string]any{"in": in, "cand": hx(c), "U": hx(e.U)}, fmt.Sprintf("pdfcpu %s independent %v|%s", res, wok, hx(wkey)))
@@ -220,7 +225,9 @@ func partRC4(r *vh.Run) {
 			}
 			args = []string{hx(oslot), hx(uslot), hx(e.O), hx(e.U), P, hx(id), R, L, EM}
 			r.Case("vowner", args, res)
-			r.Case("s_alg7", args, res)
+			if r.Thorough() || ci != 0 {
+				r.Case("s_alg7", args, res)
+			}
 			wok, wkey = iAlg7(oslot, uslot, e.O, e.U, p, id, rev, length, emd)
 			if err != nil || ok != wok || !bytes.Equal(c3.EncKey, wkey) {
 				r.OracleFail("iso-mismatch:validateOwnerPassword", map[string]any{"in": in, "oslot": hx(oslot), "uslot": hx(uslot), "U": hx(e.U)}, fmt.Sprintf("pdfcpu %s independent %v|%s", res, wok, hx(wkey)))
